@@ -68,6 +68,7 @@ func checkC17(p *Prog, res *Result, tier string) {
 	res.rule("C17-R6", "expiry deletes follow the worker's failed-delete discipline with the record's user key, so that an event is removed wholly or its remaining records are left alone (C07-R4)", 2)
 	res.rule("C17-R9", "the index record and the version record of one write carry the same TTL: an Event expires wholly", 4)
 	res.rule("C17-R10", "a compaction mark (revision, time logged) is immutable: its fields are written where it is made and nowhere else - 'older than the TTL' on engines without native TTL is read off these pairs", 1)
+	res.rule("C17-R11", "the age of a compaction mark is compared with the TTL as measured (time.Since of the mark's time), not rounded or truncated", 1)
 	res.rule("C17-R5", "expiry disabled on engines with native TTL; TTL handed to the engine only on the classified branch", 2)
 
 	prefixF := p.structField("pkg/backend", "Config", "Prefix")
@@ -703,6 +704,7 @@ func checkC17(p *Prog, res *Result, tier string) {
 	}
 
 	checkCompactMarksImmutable(p, res, "C17-R10")
+	checkAgeNotRounded(p, res, "C17-R11")
 	// ---- R6: the failed-delete discipline on the expiry chains (C07-R4) ----
 	if !c17NoImports {
 		sub7 := p.subResult("C07", tier)
@@ -952,6 +954,38 @@ func checkCompactMarksImmutable(p *Prog, res *Result, rule string) {
 		res.und(rule, "compaction marks", "-", "no (revision, time) pair type in the scanner package")
 		return
 	}
+	// .. and a mark, once logged, is not exchanged for another: nothing in the package stores into the Value of an
+	// element of a container/list (a mark that is replaced by a later one for the same revision takes over its place
+	// with the later time - on an idle store the single mark never ages past the TTL and nothing ever expires)
+	{
+		var bad ssa.Instruction
+		for _, f := range p.AllFuncs {
+			if f.Pkg != sp || f.Blocks == nil {
+				continue
+			}
+			for _, b := range f.Blocks {
+				for _, ins := range b.Instrs {
+					st, ok := ins.(*ssa.Store)
+					if !ok {
+						continue
+					}
+					fa, ok := st.Addr.(*ssa.FieldAddr)
+					if !ok || fieldOf(fa).Name() != "Value" {
+						continue
+					}
+					if pt, ok := fa.X.Type().Underlying().(*types.Pointer); ok && isNamed(pt.Elem(), "container/list", "Element") {
+						bad = st
+					}
+				}
+			}
+		}
+		construct := "scanner: logged compaction marks are never exchanged"
+		if bad != nil {
+			res.bad(rule, construct, p.pos(bad.Pos()), "the Value of a list element is overwritten: a logged compaction mark is replaced by a later one, which takes its place in the queue with the later time - the mark no longer says when that revision was first compacted, and what was written before it is expired late or never")
+		} else {
+			res.ok(rule, construct, "-", "marks are only appended and removed")
+		}
+	}
 	for _, n := range marks {
 		st := n.Underlying().(*types.Struct)
 		k := 0
@@ -971,5 +1005,48 @@ func checkCompactMarksImmutable(p *Prog, res *Result, rule string) {
 		} else {
 			res.ok(rule, construct, p.pos(n.Obj().Pos()), fmt.Sprintf("%d store(s), all into a freshly made mark", k))
 		}
+	}
+}
+
+// checkAgeNotRounded (C17-R11): "older than the TTL" compares the TTL with the time that has really passed since the
+// mark was logged: the operand compared with the configured TTL is time.Since / Time.Sub of the mark's time itself,
+// not that duration rounded or truncated (rounding to the second makes a mark count as expired up to half a second
+// early, and with it every Event written just before it).
+func checkAgeNotRounded(p *Prog, res *Result, rule string) {
+	sp := p.ssaPkg("pkg/backend/scanner")
+	n := 0
+	for _, f := range p.AllFuncs {
+		if f.Pkg != sp || f.Blocks == nil {
+			continue
+		}
+		for _, b := range f.Blocks {
+			for _, ins := range b.Instrs {
+				bo, ok := ins.(*ssa.BinOp)
+				if !ok || (bo.Op != token.LSS && bo.Op != token.LEQ && bo.Op != token.GTR && bo.Op != token.GEQ) {
+					continue
+				}
+				if !isNamed(bo.X.Type(), "time", "Duration") || !isNamed(bo.Y.Type(), "time", "Duration") {
+					continue
+				}
+				n++
+				construct := fmt.Sprintf("%s: duration comparison #%d", funcName(f), n)
+				var rounded *ssa.Call
+				for _, v := range []ssa.Value{bo.X, bo.Y} {
+					if c, ok := resolve(v).(*ssa.Call); ok {
+						if sc := c.Common().StaticCallee(); sc != nil && sc.Pkg != nil && sc.Pkg.Pkg.Path() == "time" && (sc.Name() == "Round" || sc.Name() == "Truncate") {
+							rounded = c
+						}
+					}
+				}
+				if rounded != nil {
+					res.bad(rule, construct, p.pos(rounded.Pos()), "the age that is compared with the TTL is rounded (or truncated): a compaction mark counts as older than the TTL before it is, and every Event up to its revision is removed early")
+				} else {
+					res.ok(rule, construct, p.pos(bo.Pos()), "durations compared as measured")
+				}
+			}
+		}
+	}
+	if n == 0 {
+		res.und(rule, "scanner: age test", "-", "no comparison of two durations in the scanner package")
 	}
 }
